@@ -1,4 +1,117 @@
 package checks
 
-// runC09Proc is sub-check 4 (fresh stock CLI processes); see procsim.
-func runC09Proc(e *Env) (int, error) { return 0, nil }
+import (
+	"encoding/json"
+	"fmt"
+	"os"
+	"strings"
+
+	"verif/internal/gen"
+	"verif/internal/harness"
+	"verif/internal/procsim"
+)
+
+// C09ProcCase is a fault-free world run several times as fresh processes of
+// the stock CLI (the Go runtime picks the map order).
+type C09ProcCase struct {
+	World procsim.World      `json:"world"`
+	Tool  string             `json:"tool"`
+	Inv   procsim.Invocation `json:"invocation"`
+	Runs  []string           `json:"gomaxprocs"`
+}
+
+func judgeC09Proc(e *Env, c *C09ProcCase, tag string, run int64) (*c09Obs, bool, error) {
+	var obs *c09Obs
+	skipped := false
+	err := withWorld(e, tag, run, &c.World, func(root string) error {
+		var first *procsim.Outcome
+		for i, gmp := range c.Runs {
+			inv := c.Inv
+			inv.Kind = "stock"
+			inv.Env = map[string]string{"VERIF_A": "va", "VERIF_B": "3", "GOMAXPROCS": gmp}
+			out, err := runInv(e, root, c.Tool, &inv)
+			if err != nil {
+				return err
+			}
+			if out.Crash != "" || out.CPUOut || out.Signal != "" {
+				skipped = true // C08's subject
+				return nil
+			}
+			if first == nil {
+				first = out
+				continue
+			}
+			if (first.Status == 0) != (out.Status == 0) || first.Stdout != out.Stdout {
+				obs = &c09Obs{Clause: "fresh-process-dependent-result", Op: i,
+					Got:  short(fmt.Sprintf("status %d stdout %s", out.Status, out.Stdout), 700),
+					Want: short(fmt.Sprintf("status %d stdout %s", first.Status, first.Stdout), 700)}
+				return nil
+			}
+		}
+		return nil
+	})
+	return obs, skipped, err
+}
+
+// runC09Proc is sub-check 4: the stock CLI, several fresh processes per
+// world, real runtime map order, GOMAXPROCS 1 and 16.
+func runC09Proc(e *Env) (int, error) {
+	ev := e.Ev
+	n := e.N(250, 5000) / 10
+	if n < 4 {
+		n = 4
+	}
+	if os.Getenv("VERIF_RUNS") == "" {
+		n = int64(e.Pick(250, 5000))
+	}
+	fn := func(run int64) harness.RunResult {
+		r := gen.New(e.Seed, "C09-proc", run)
+		g := genC08(r)
+		// fault-free variant of the C08 world: plain files, pipe as sink
+		c := &C09ProcCase{World: g.World, Tool: g.Tool, Inv: g.Inv, Runs: []string{"1", "16", "1", "16", "4", "16"}}
+		c.Inv.Injects, c.Inv.StdoutTo, c.Inv.Sched = nil, "", nil
+		if g.OutFile != "" || strings.Contains(strings.Join(g.Faults, " "), "symlink") {
+			return harness.RunResult{}
+		}
+		obs, skipped, err := judgeC09Proc(e, c, "proc", run)
+		if err != nil {
+			return harness.RunResult{Err: err}
+		}
+		if skipped {
+			ev.Count("skipped_resource_exhaustion", 1)
+			return harness.RunResult{}
+		}
+		ev.Eval("")
+		ev.Count("fresh_process_worlds", 1)
+		ev.Count("fresh_process_runs", int64(len(c.Runs)))
+		if obs == nil {
+			return harness.RunResult{}
+		}
+		return harness.RunResult{Violation: &harness.Violation{Property: "C09", Check: "processes", Clause: obs.Clause, Seed: e.Seed, Run: run, Case: c, Observed: obs}}
+	}
+	return e.Drive(n, fn, nil)
+}
+
+func init() {
+	replayers["C09/processes"] = func(e *Env, raw []byte) (string, any, error) {
+		var v struct {
+			Clause string      `json:"clause"`
+			Run    int64       `json:"run"`
+			Case   C09ProcCase `json:"case"`
+		}
+		if err := json.Unmarshal(raw, &v); err != nil {
+			return "", nil, err
+		}
+		// the runtime picks the order: repeat a few times
+		for k := 0; k < 10; k++ {
+			o, _, err := judgeC09Proc(e, &v.Case, "replay", v.Run+int64(k))
+			if err != nil {
+				return "", nil, err
+			}
+			if o != nil && o.Clause == v.Clause {
+				return o.Clause, o, nil
+			}
+		}
+		return "", nil, nil
+	}
+}
